@@ -32,9 +32,13 @@ def plan(ctx):
     """(size, items, spec): spec 'cosets' = exact spec on the real matrices, 'float' = real float contraction only,
     'tensors' = tensor comparison only (contraction infeasible without chi)"""
     q = ctx.quick()
-    P = [(3, 5 if q else 20, 'cosets')]
-    P += [(5, 1 if q else 2, 'cosets'), (5, 1 if q else 5, 'float')]
-    P += [(7, 1 if q else 3, 'tensors'), (9, 1 if q else 2, 'tensors')]
+    P = [(3, 3 if q else 20, 'cosets')]
+    # quick: the size-5 exact spec value (2^18 group elements in the Lean driver) alternates with the float comparison by seed
+    if q:
+        P += [(5, 1, 'float')]   # the exact size-5 spec value (2^18 group elements, ~25 s in the driver) is thorough-only
+    else:
+        P += [(5, 2, 'cosets'), (5, 5, 'float')]
+    P += [(7, 1 if q else 3, 'tensors')] + ([] if q else [(9, 2, 'tensors')])
     if not q:
         P += [(11, 1, 'tensors')]
     return P
